@@ -150,7 +150,10 @@ func validateEndBuf(src []byte, cursor int64) error {
 			cursor++
 			continue
 		case nul:
-			return nil
+			if cursor == int64(len(src))-1 {
+				// reached the terminator appended by the caller
+				return nil
+			}
 		}
 		return errors.ErrSyntax(
 			fmt.Sprintf("invalid character '%c' after top-level value", src[cursor]),
